@@ -5,7 +5,7 @@
    Regime N3 (DESIGN 2.4): real-number semantics; floating-point rounding is not verified. *)
 From Coq Require Import ZArith.
 From mathcomp Require Import all_ssreflect all_algebra.
-From DV Require Import Model.C14_exec Proofs.C14_RankOne Proofs.C14_Elitist Proofs.C14_Active Proofs.C14_MO.
+From DV Require Import Model.C14_exec Proofs.C14_RankOne Proofs.C14_Elitist Proofs.C14_Active Proofs.C14_MO Proofs.C14_Refine.
 Import Order.TTheory GRing.Theory Num.Theory.
 Set Implicit Arguments. Unset Strict Implicit. Unset Printing Implicit Defensive.
 Local Open Scope ring_scope.
@@ -320,6 +320,54 @@ Theorem C14_mo_psucc_in_01_sigma_pos :
   all (@in01 R) (ms_psucc st') /\ all (@pos R) (ms_sigmas st').
 Proof. move=> R e r ep P st ch nc cp; exact: mo_update_core_ranges. Qed.
 Print Assumptions C14_mo_psucc_in_01_sigma_pos.
+
+(* ========================================================================================= *)
+(* the factor updates OF THE EXECUTABLE MODEL (lists of rows read as n x n matrices by mx_of)    *)
+(* ========================================================================================= *)
+(* StrategyMultiObjective._rankOneUpdate of the model = the matrix-level update; hence the stored
+   inverse stays exact and the covariance changes by alpha * old + beta * v v^T (or not at all) *)
+Theorem C14_model_mo_rank_one :
+  forall (R : rcfType) (exp_ round_ : R -> R) (n : nat) invC A (alpha beta : R) v,
+  wfm n invC -> wfm n A -> wfv n v -> mx_of n invC *m mx_of n A = 1%:M -> 0 < alpha -> 0 <= beta ->
+  let: (iC', A') := C14_exec.mo_rank_one (ROps exp_ round_) invC A alpha beta v in
+  [/\ wfm n iC', wfm n A', mx_of n iC' *m mx_of n A' = 1%:M &
+      exists al be : R, [/\ 0 < al,
+        mx_of n A' *m (mx_of n A')^T =
+          al *: (mx_of n A *m (mx_of n A)^T) + be *: (vec_of n v *m (vec_of n v)^T) &
+        (al, be) = (alpha, beta) \/ (al, be) = (1, 0)]].
+Proof. move=> R e r n; exact: mo_rank_one_model_ok. Qed.
+Print Assumptions C14_model_mo_rank_one.
+
+(* update of the multi-objective strategy: every stored inverse factor is the inverse of its
+   factor after the update (and the state stays well-formed), whoever survives *)
+Theorem C14_model_mo_update_keeps_inverse :
+  forall (R : rcfType) (exp_ round_ : R -> R) (n : nat) P st (chosen not_chosen : seq (mind (T:=R))),
+  wf_ms n st -> inv_ok_ms n st ->
+  0 < mp_ccov P < 1 -> 0 <= mp_cc P <= 1 ->
+  all (fun ind : mind (T:=R) => (mi_pidx ind < size (ms_parents st))%nat && wfv n (mi_x ind)) chosen ->
+  let st' := mo_update_core (ROps exp_ round_) P st chosen not_chosen in
+  wf_ms n st' /\ inv_ok_ms n st'.
+Proof. move=> R e r n; exact: mo_update_core_inverse. Qed.
+Print Assumptions C14_model_mo_update_keeps_inverse.
+
+(* StrategyActiveOnePlusLambda._rank1update of the model (all branches, repaired inverse update):
+   invA stays the inverse of A and A A^T changes by a positive multiple plus a multiple of v v^T;
+   hypothesis nz: the vector w used by the branch taken is non-zero (the code divides by |w|^2) *)
+Theorem C14_model_active_rank1update :
+  forall (R : rcfType) (exp_ round_ : R -> R) (n : nat) (P : aparams (T:=R)) (st : astate (T:=R))
+         (ind : aind (T:=R)) (ps : R),
+  wfm n (as_A st) -> wfm n (as_invA st) -> wfv n (as_pc st) -> wfv n (ai_y ind) -> wfv n (ai_z ind) ->
+  mx_of n (as_invA st) *m mx_of n (as_A st) = 1%:M ->
+  0 < ap_ccovp P < 1 -> ap_ccovp P * (1 + ap_cc P * (2%:R - ap_cc P)) < 1 -> 0 <= ap_ccovn P ->
+  (forall w, r1_w exp_ round_ P st ind ps = Some w -> nrm2 (vec_of n w) != 0) ->
+  let st' := rank1update (ROps exp_ round_) P st ind ps in
+  [/\ wfm n (as_A st'), wfm n (as_invA st'), wfv n (as_pc st'),
+      mx_of n (as_invA st') *m mx_of n (as_A st') = 1%:M &
+      exists (alpha beta : R) (v : 'cV[R]_n), 0 < alpha /\
+        mx_of n (as_A st') *m (mx_of n (as_A st'))^T =
+          alpha *: (mx_of n (as_A st) *m (mx_of n (as_A st))^T) + beta *: (v *m v^T)].
+Proof. move=> R e r n; exact: rank1update_factors. Qed.
+Print Assumptions C14_model_active_rank1update.
 
 (* ========================================================================================= *)
 (* non-vacuity: the hypotheses are satisfiable                                                   *)
